@@ -221,17 +221,30 @@ class ClearAndMasked(e2.Case):
 class WriteRead(e2.Case):
     """write_image unlinks iff completely masked (any prior file state), else saves; read_image default handling."""
 
-    def __init__(self, mode):
+    def __init__(self, mode, fmt="none"):
+        """fmt: 'none' (format=None), 'same' (format = the pyramid's default, explicitly), 'other' (a format override
+        different from the pyramid's default: the file concerned is the one in the OVERRIDE format)."""
         self.mode = mode
-        self.name = "write-read-%s" % mode
-        self.max_paths = 64
+        self.fmt = fmt
+        self.name = "write-read-%s%s" % (mode, "" if fmt == "none" else "-format-" + fmt)
+        self.max_paths = 128
+
+    def _formats(self):
+        default = "npy" if self.mode not in ("RGB", "RGBA") else "png"
+        other = "fits" if default == "npy" else "jpg"
+        arg = {"none": None, "same": default, "other": other}[self.fmt]
+        return default, arg, (arg or default)
 
     def run(self, w):
         m = self.mode
         sdt, sch, bdt, bch = MODES[m]
         bch = 3 if m == "RGB" else bch
+        default_fmt, fmt_arg, eff_fmt = self._formats()
+        exp_path = "/base/3/2/2_5." + eff_fmt
+        other_path = "/base/3/2/2_5." + ("fits" if eff_fmt == "npy" else "npy" if eff_fmt == "fits" else "jpg" if eff_fmt == "png" else "png")
         content = w.array("content", (256, 256) + ((bch,) if bch else ()), bdt)
         prior_exists = w.bool("prior_exists")
+        prior_other = w.bool("prior_other")
         all_undefined = w.bool("all_undefined")
         pr = w.int("pr", 0, 255)
         pc = w.int("pc", 0, 255)
@@ -240,7 +253,7 @@ class WriteRead(e2.Case):
             for k in range(bch):
                 w.pixel(pr, pc, k)
         events = []
-        files = {"exists": bool(prior_exists)} if not w.symbolic else {"exists": prior_exists}
+        files = {exp_path: prior_exists if w.symbolic else bool(prior_exists), other_path: prior_other if w.symbolic else bool(prior_other)}
 
         class FakeOS:
             path = tp.os.path
@@ -252,9 +265,9 @@ class WriteRead(e2.Case):
             @staticmethod
             def unlink(p):
                 events.append(("unlink", p))
-                if not files["exists"]:
+                if not files.get(p, False):
                     raise FileNotFoundError(2, "No such file", p)
-                files["exists"] = False
+                files[p] = False
 
         saved_os = tp.os
         saved_save = Image.save
@@ -262,14 +275,14 @@ class WriteRead(e2.Case):
 
         def fake_save(self_img, path, format=None, mode=None, min_value=None, max_value=None):
             events.append(("save", path, format))
-            files["exists"] = True
+            files[path] = True
 
         err = {"errno": 2}
 
         class FakeLoader:
             def load_path(self, p):
                 events.append(("load", p))
-                if files["exists"]:
+                if files.get(p, False):
                     return "IMAGE"
                 if err["errno"] == 2:
                     raise FileNotFoundError(2, "No such file", p)
@@ -280,7 +293,7 @@ class WriteRead(e2.Case):
         tp.ImageLoader = FakeLoader
         try:
             with w.patched(ti):
-                pio = PyramidIO("/base", default_format="npy" if m not in ("RGB", "RGBA") else "png")
+                pio = PyramidIO("/base", default_format=default_fmt)
                 if m == "RGB":
                     buf = Image.from_array(w.np.empty((256, 256, 3), dtype=w.np.uint8))
                 else:
@@ -295,26 +308,30 @@ class WriteRead(e2.Case):
                     else:
                         buf.asarray()[pr, pc] = 7
                 pos = Pos(3, 5, 2)
-                pio.write_image(pos, buf)
+                if fmt_arg is None:
+                    pio.write_image(pos, buf)
+                else:
+                    pio.write_image(pos, buf, format=fmt_arg)
                 wrote = list(events)
-                exists_after = files["exists"]
+                exists_after = files[exp_path]
+                other_after = files[other_path]
                 del events[:]
                 # read-back behaviour on the resulting state
-                got_none = pio.read_image(pos, default="none")
-                got_masked = pio.read_image(pos, default="masked", masked_mode=buf.mode)
+                got_none = pio.read_image(pos, default="none", format=fmt_arg)
+                got_masked = pio.read_image(pos, default="masked", masked_mode=buf.mode, format=fmt_arg)
                 try:
-                    pio.read_image(pos, default="bogus")
+                    pio.read_image(pos, default="bogus", format=fmt_arg)
                     bogus = "returned"
                 except ValueError:
                     bogus = "ValueError"
                 try:
-                    pio.read_image(pos, default="masked")
+                    pio.read_image(pos, default="masked", format=fmt_arg)
                     nomode = "returned"
                 except ValueError:
                     nomode = "ValueError"
                 err["errno"] = 13
                 try:
-                    pio.read_image(pos, default="none")
+                    pio.read_image(pos, default="none", format=fmt_arg)
                     perm = "returned"
                 except PermissionError:
                     perm = "PermissionError"
@@ -329,24 +346,30 @@ class WriteRead(e2.Case):
             tp.ImageLoader = saved_loader
         kinds = [e[0] for e in wrote if e[0] != "makedirs"]
         paths = [e[1] for e in wrote if e[0] != "makedirs"]
+        load_paths = [e[1] for e in events if e[0] == "load"]
         return dict(kinds=kinds, paths=paths, exists_after=exists_after, got_none=got_none, got_masked=got_masked,
                     bogus=bogus, nomode=nomode, perm=perm, masked_arr=masked_arr, masked_mode=masked_mode,
-                    all_undefined=all_undefined, prior=prior_exists)
+                    all_undefined=all_undefined, prior=prior_exists, prior_other=prior_other, other_after=other_after,
+                    load_paths=load_paths, exp_path=exp_path)
 
     def claims(self, w, outs):
         m = self.mode
         can_mask = m != "RGB"
         # python-level facts of this path (all_undefined / prior_exists were decided by the explorer)
         au_c = _pybool(outs["all_undefined"])
-        exp_path = "/base/3/2/2_5." + ("npy" if m not in ("RGB", "RGBA") else "png")
-        sig = "image.py:is_completely_masked:integer-modes-never-masked" if m in ("U8", "I16", "I32") else None
-        what = ("PyramidIO.write_image stores an all-undefined (all-zero) %s tile because Image.is_completely_masked() returns False for integer modes" % m
-                if sig else "write_image: unlink iff completely masked, otherwise save (%s)" % m)
+        exp_path = outs["exp_path"]
+        sig = None
+        what = "write_image(format=%r): unlink the tile file iff the image is completely masked, otherwise save it there (%s)" % (self._formats()[1], m)
         if au_c and can_mask:
             ok = outs["kinds"] == ["unlink"] and outs["paths"] == [exp_path] and _pybool(outs["exists_after"]) is False
         else:
             ok = outs["kinds"] == ["save"] and outs["paths"] == [exp_path] and _pybool(outs["exists_after"]) is True
         w.claim("write-unlinks-iff-all-undefined", ok, probe=lambda ro, val: _wr_ok(ro, m), sig=sig, what=what)
+        w.claim("write-leaves-the-other-format-alone", _pybool(outs["other_after"]) == _pybool(outs["prior_other"]),
+                probe=lambda ro, val: bool(ro["other_after"]) == bool(ro["prior_other"]),
+                what="write_image(format=%r) touched the tile file of another format (%s)" % (self._formats()[1], m))
+        w.claim("read-uses-the-requested-format", set(outs["load_paths"]) <= {exp_path},
+                probe=lambda ro, val: set(ro["load_paths"]) <= {ro["exp_path"]}, what="read_image(format=%r) opened %r" % (self._formats()[1], outs["load_paths"]))
         exists = _pybool(outs["exists_after"])
         ok2 = (outs["got_none"] == "IMAGE") if exists else (outs["got_none"] is None)
         ok2 = ok2 and outs["bogus"] == ("returned" if exists else "ValueError")
@@ -373,7 +396,7 @@ def _pybool(v):
 
 
 def _wr_ok(ro, m):
-    exp_path = "/base/3/2/2_5." + ("npy" if m not in ("RGB", "RGBA") else "png")
+    exp_path = ro["exp_path"]
     if ro["all_undefined"] and m != "RGB":
         return ro["kinds"] == ["unlink"] and ro["paths"] == [exp_path] and not ro["exists_after"]
     return ro["kinds"] == ["save"] and ro["paths"] == [exp_path] and bool(ro["exists_after"])
@@ -397,6 +420,8 @@ def cases(tier):
                 out.append(FillUpdate(mode, op, rev))
         out.append(ClearAndMasked(mode))
         out.append(WriteRead(mode))
+        out.append(WriteRead(mode, "same"))
+        out.append(WriteRead(mode, "other"))
     return out
 
 
